@@ -571,13 +571,18 @@ pub fn multi_header() -> Value {
 pub fn body_mode(a: &[String]) -> Value {
     let (date, stamp) = now_stamp(0);
     let host = "localhost"; let method = a[0].as_str(); let path = a[1].as_str(); let body = a[2].as_bytes().to_vec();
+    // modes: "signed" (digest of the body), "empty-hash" (digest of "" although a body is attached), "empty-hash-no-length" (the same,
+    // and the body arrives as a stream with NO Content-Length header — chunked / HTTP/2), "empty-hash-zero-length" (Content-Length: 0)
     let digest = if a[3] == "signed" { sha256_hex(&body) } else { sha256_hex(b"") };
     let scope = format!("{date}/us-east-1/s3/aws4_request");
     let canonical = format!("{method}\n{}\n\nhost:{host}\nx-amz-content-sha256:{digest}\nx-amz-date:{stamp}\n\nhost;x-amz-content-sha256;x-amz-date\n{digest}", uri_encode(path, false));
     let sts = format!("AWS4-HMAC-SHA256\n{stamp}\n{scope}\n{}", sha256_hex(canonical.as_bytes()));
     let sig = hex(&hmac(&signing_key(&date, "us-east-1", "s3"), sts.as_bytes()));
     let auth = format!("AWS4-HMAC-SHA256 Credential={AK}/{scope}, SignedHeaders=host;x-amz-content-sha256;x-amz-date, Signature={sig}");
-    let (st, calls, rbody) = send_body(method, path, "", vec![("host".into(), host.into()), ("x-amz-content-sha256".into(), digest.clone()), ("x-amz-date".into(), stamp), ("content-length".into(), body.len().to_string()), ("authorization".into(), auth)], body);
+    let mut hdrs: Vec<(String, String)> = vec![("host".into(), host.into()), ("x-amz-content-sha256".into(), digest.clone()), ("x-amz-date".into(), stamp), ("authorization".into(), auth)];
+    if a[3] == "empty-hash-zero-length" { hdrs.push(("content-length".into(), "0".into())); }
+    else if a[3] != "empty-hash-no-length" { hdrs.push(("content-length".into(), body.len().to_string())); }
+    let (st, calls, rbody) = send_body(method, path, "", hdrs, body);
     let reached = calls.iter().any(|c| c.contains('@'));
     let ok = if a[3] == "signed" { reached } else { !reached && st >= 400 };
     json!({"violates": !ok, "input": {"request": format!("{method} {path}"), "body": a[2], "x-amz-content-sha256": if a[3] == "signed" { "sha256(body)" } else { "sha256(\"\") although a body is attached" }},
